@@ -317,6 +317,104 @@ EscapeRoundTrip ==
     /\ \A i \in DOMAIN Escape(str) : Escape(str)[i] \notin {9, 10, 13}
 
 -----------------------------------------------------------------------------
+(* C08: numbers manufactured by natives.  "an int renders as an integer
+   numeral, a decimal as a numeral with a fractional part": what a value says
+   it is (type()) and the shape of its text must agree whichever native made
+   the value, and the text must evaluate back to it.  Make(op, x) is what the
+   documentation of the native states for the argument x: the kind of the
+   result and - on the small numbers of the universe - the result itself
+   (val = FALSE: only the kind is stated, e.g. for an int beyond 2^53 turned
+   into a decimal).  The harness calls every native on every value for which
+   ok holds and judges what comes back by its own type().                   *)
+MakerOps == <<"length", "int", "decimal", "floor", "ceiling", "round", "abs", "sign", "find", "sum">>
+\* natives without an argument whose result the model does not determine: the kind only
+NullaryMakers == <<[op |-> "timestamp", k |-> "int"]>>
+
+Made(v)     == [ok |-> TRUE,  k |-> v.k, val |-> TRUE,  v |-> v]
+MadeKind(k) == [ok |-> TRUE,  k |-> k,   val |-> FALSE, v |-> VNull]
+NoMake      == [ok |-> FALSE, k |-> "",  val |-> FALSE, v |-> VNull]
+
+IsSmallNum(x) == IsNum(x) /\ ~IsBig(x)
+Pn(x) == x.n[1]
+Qn(x) == IF x.n[2] = -1 THEN 1 ELSE x.n[2]            \* negative zero counts as 0/1
+FloorQ(p, q) == p \div q                               \* q > 0: \div rounds down
+CeilQ(p, q)  == -((-p) \div q)
+TruncQ(p, q) == IF p >= 0 THEN p \div q ELSE -((-p) \div q)
+RoundQ(p, q) == LET f == p \div q                      \* a half goes to the even neighbour
+                    r == p - f * q
+                IN IF 2 * r < q THEN f ELSE IF 2 * r > q THEN f + 1
+                   ELSE IF f % 2 = 0 THEN f ELSE f + 1
+SignI(p) == IF p < 0 THEN -1 ELSE IF p > 0 THEN 1 ELSE 0
+
+AllSmallNum(items) == \A i \in DOMAIN items : IsSmallNum(items[i])
+AllInt(items)      == \A i \in DOMAIN items : items[i].k = "int"
+RECURSIVE SumOver(_, _)
+SumOver(items, den) == IF items = << >> THEN 0
+                       ELSE Pn(Head(items)) * (den \div Qn(Head(items))) + SumOver(Tail(items), den)
+
+\* a number rounded to an integral decimal by f (floor / ceiling / round)
+Integral(f(_, _), x) ==
+  IF IsSmallNum(x) THEN Made(VDec(f(Pn(x), Qn(x)), 1))
+  ELSE IF IsNum(x) /\ x.k = "dec" THEN Made(x)        \* a big decimal is integral
+  ELSE IF IsNum(x) THEN MadeKind("dec")                \* the nearest decimal of a big int: not modelled
+  ELSE NoMake
+
+Make(op, x) ==
+  CASE op = "length" ->
+         IF x.k = "str" THEN Made(VInt(Len(x.s)))
+         ELSE IF x.k \in {"list", "set", "map"} THEN Made(VInt(Len(x.items))) ELSE NoMake
+    [] op = "int" ->
+         IF IsSmallNum(x) THEN Made(VInt(TruncQ(Pn(x), Qn(x))))
+         ELSE IF IsNum(x) THEN Made(VBigInt(x.n[1], x.s)) ELSE NoMake
+    [] op = "decimal" ->
+         IF IsNum(x) /\ x.k = "dec" THEN Made(x)
+         ELSE IF IsSmallNum(x) THEN Made(VDec(Pn(x), 1))
+         ELSE IF IsNum(x) THEN MadeKind("dec") ELSE NoMake
+    [] op = "floor"   -> Integral(FloorQ, x)
+    [] op = "ceiling" -> Integral(CeilQ, x)
+    [] op = "round"   -> Integral(RoundQ, x)
+    [] op = "abs" ->
+         IF IsSmallNum(x) THEN Made(IF x.k = "int" THEN VInt(Abs(Pn(x))) ELSE VDec(Abs(Pn(x)), Qn(x)))
+         ELSE IF IsNum(x) THEN Made(IF x.k = "int" THEN VBigInt(1, x.s) ELSE VBigDec(1, x.s)) ELSE NoMake
+    [] op = "sign" ->
+         IF IsNum(x) THEN Made(VInt(SignI(Pn(x)))) ELSE NoMake
+    [] op = "find" ->                  \* find(x, last element of x): the first position holding an Equal one
+         IF x.k = "list" /\ x.items # << >> THEN Made(VInt(ListFind(x, x.items[Len(x.items)]))) ELSE NoMake
+    [] op = "sum" ->
+         IF x.k = "list" /\ AllSmallNum(x.items)
+         THEN Made(IF AllInt(x.items) THEN VInt(SumOver(x.items, 1)) ELSE VDec(SumOver(x.items, 1024), 1024))
+         ELSE NoMake
+
+Unsigned(t) == IF t # << >> /\ t[1] = 45 THEN Tail(t) ELSE t
+
+\* whatever a native makes is a well-formed number of the stated kind whose
+\* text has the shape of that kind
+MakerShape ==
+  mode = "pair" /\ ib = 1 =>
+    \A j \in DOMAIN MakerOps : LET r == Make(MakerOps[j], a) IN
+      /\ r.ok => r.k \in {"int", "dec"}
+      /\ r.ok /\ r.val =>
+           /\ WF(r.v) /\ r.v.k = r.k
+           /\ r.k = "int" => IsIntNumeral(Unsigned(Render(r.v)))
+           /\ r.k = "dec" => IsDecNumeral(Unsigned(Render(r.v)))
+
+\* the makers among themselves, on the small numbers
+MakerLaws ==
+  mode = "pair" /\ ib = 1 /\ IsSmallNum(a) =>
+    LET fl == Make("floor", a).v   ce == Make("ceiling", a).v
+        ro == Make("round", a).v   tr == Make("int", a).v IN
+    /\ NumCmp(fl, a) <= 0 /\ NumCmp(a, ce) <= 0
+    /\ Pn(ce) - Pn(fl) \in {0, 1}
+    /\ (Pn(ce) = Pn(fl)) <=> Equal(fl, a)                   \* integral already
+    /\ Equal(ro, fl) \/ Equal(ro, ce)
+    /\ Equal(tr, fl) \/ Equal(tr, ce)
+    /\ Abs(Pn(tr)) <= Abs(Pn(fl)) /\ Abs(Pn(tr)) <= Abs(Pn(ce))        \* toward zero
+    /\ Equal(Make("int", Make("decimal", a).v).v, tr)
+    /\ a.k = "int" => Equal(Make("decimal", a).v, a) /\ Make("decimal", a).v.k = "dec"
+    /\ Equal(Make("abs", a).v, a) \/ Pn(a) < 0
+    /\ NumCmp(Make("abs", a).v, VInt(0)) >= 0
+
+-----------------------------------------------------------------------------
 (* Export for binding A: the universe with its text, tokens and whether its
    enumeration order is stated; one row of the pair table per value. *)
 Emit(tag, rec) == IF Export THEN PrintT("@@" \o tag \o "@@" \o ToJson(rec)) ELSE TRUE
@@ -332,5 +430,12 @@ ExportLt ==
                 srt |-> IF a.k \in {"set", "map"} THEN NT[ia].items ELSE << >>])
 ExportTx ==
   mode = "pair" /\ ib = 1 => Emit("TX", [i |-> ia, txt |-> TxT[ia], toks |-> TokensN(NT[ia])])
+ExportMk ==
+  mode = "pair" /\ ib = 1 =>
+    Emit("MK", [i |-> ia, nullary |-> NullaryMakers,
+                mk |-> [j \in DOMAIN MakerOps |->
+                          LET r == Make(MakerOps[j], a) IN
+                          [op |-> MakerOps[j], ok |-> r.ok, k |-> r.k, val |-> r.val, v |-> r.v,
+                           txt |-> IF r.val THEN Render(r.v) ELSE << >>]]])
 
 =============================================================================
